@@ -656,13 +656,26 @@ fn gen_anchors(f: &mut SynthFont, g: &mut Gen) {
             }
         }
         // a mark must have at least one mark anchor to be of any use; keep it possible that it has none
+        // a third of the glyphs carry half-unit coordinates (negative ones too) so that the rounding rule shows
+        let halfish = gg.chance(1, 3);
         for (&si, src) in gl.sources.iter_mut() {
             for (k, (n, x, y)) in list.iter().enumerate() {
                 let (jx, jy) = if si == 0 { (0.0, 0.0) } else { ((((k * 7 + si * 13) % 31) as f64) - 15.0, (((k * 11 + si * 5) % 23) as f64) - 11.0) };
-                src.anchors.push((n.clone(), x + jx, y + jy));
+                let (hx, hy) = if halfish { (if (k + si) % 2 == 0 { 0.5 } else { 0.0 }, if (k + si) % 3 != 1 { -0.5 } else { 0.0 }) } else { (0.0, 0.0) };
+                let flip = if halfish && k % 2 == 1 { -1.0 } else { 1.0 };
+                src.anchors.push((n.clone(), flip * (x + jx) + hx, y + jy + hy));
             }
         }
         let _ = n_src;
+    }
+    // feature code that asks for the generated mark / mkmk lookups explicitly through insertion markers
+    let first = f.glyphs.iter().find(|x| x.export && x.name != ".notdef").map(|x| x.name.clone());
+    let variant = g.weighted(&[6, 1, 1, 1]);
+    let tag = if g.chance(1, 3) { "mkmk" } else { "mark" };
+    if let (Some(first), true) = (first, variant > 0) {
+        let manual = format!("feature {tag} {{\n    pos {first} <0 0 0 0>;\n}} {tag};\n");
+        let marker = format!("feature {tag} {{\n    # Automatic Code\n}} {tag};\n");
+        f.features = Some(match variant { 1 => marker, 2 => format!("{manual}{marker}"), _ => format!("{marker}{manual}") });
     }
 }
 
